@@ -102,7 +102,17 @@ const verifRPEpochBlocks = 20
 type verifRPEpochs struct {
 	types.EpochstorageKeeper
 	earliest     uint64
-	blocksToSave uint64
+	blocksToSave uint64 // blocks-to-save fixated for blocks below paramChangeAt (and for all blocks when that is 0)
+	// a governance change of epochs-to-save taking effect at paramChangeAt: later blocks see blocksToSaveNew
+	paramChangeAt   uint64
+	blocksToSaveNew uint64
+}
+
+func (m *verifRPEpochs) blocksToSaveAt(block uint64) uint64 {
+	if m.paramChangeAt != 0 && block >= m.paramChangeAt {
+		return m.blocksToSaveNew
+	}
+	return m.blocksToSave
 }
 
 func (m *verifRPEpochs) GetEpochStartForBlock(ctx sdk.Context, block uint64) (uint64, uint64, error) {
@@ -110,9 +120,9 @@ func (m *verifRPEpochs) GetEpochStartForBlock(ctx sdk.Context, block uint64) (ui
 }
 func (m *verifRPEpochs) GetEarliestEpochStart(ctx sdk.Context) uint64 { return m.earliest }
 func (m *verifRPEpochs) BlocksToSave(ctx sdk.Context, block uint64) (uint64, error) {
-	return m.blocksToSave, nil
+	return m.blocksToSaveAt(block), nil
 }
-func (m *verifRPEpochs) BlocksToSaveRaw(ctx sdk.Context) uint64 { return m.blocksToSave }
+func (m *verifRPEpochs) BlocksToSaveRaw(ctx sdk.Context) uint64 { return m.blocksToSaveAt(100) }
 func (m *verifRPEpochs) GetEpochStart(ctx sdk.Context) uint64   { return 100 }
 
 type verifRPSpecs struct {
@@ -422,7 +432,8 @@ func VerifRPBadge() {
 	badgeEpoch := uint64(20 * verif_nondet_range("badge.epoch", 1, 2)) // 20 or 40 (the relays name 40)
 	badgeChainOK := verif_nondet_bool("badge.lavaChainIdIsThisChain")
 	badgeSignedByDeveloper := verif_nondet_bool("badge.signedByDeveloperKey")
-	blocksToSave := uint64(20 * verif_nondet_range("blocksToSaveInEpochs", 2, 10)) // usage record expiry = badge epoch + this
+	spans := []uint64{40, 80, 200}                                      // chain memory spans (blocks to save): 2, 4 or 10 epochs
+	blocksToSave := spans[verif_nondet_range("blocksToSave.choice", 0, 2)] // usage record expiry = badge epoch + this
 	allowed := verif_nondet_u64("epochAllowedCU")
 	bits := uint(verif_param("cu_bits", 40))
 	verif_assume(allowed > 0 && allowed < 1<<40 && used <= alloc)
@@ -434,6 +445,10 @@ func VerifRPBadge() {
 	}
 	w := verifRPNewWorld(allowed, 20)
 	w.epochs.blocksToSave = blocksToSave
+	if verif_nondet_bool("epochsToSave.changedAtBlock60") {
+		// the memory span in force at the badge's epoch (20 or 40) differs from the one in force now (height 100)
+		w.epochs.paramChangeAt, w.epochs.blocksToSaveNew = 60, spans[verif_nondet_range("blocksToSaveAfterChange.choice", 0, 2)]
+	}
 	w.k.badgeTimerStore = *timerstoretypes.NewTimerStore(w.k.storeKey, w.k.cdc, types.BadgeTimerStorePrefix).WithCallbackByBlockHeight(func(sdk.Context, []byte, []byte) {})
 	w.srv = msgServer{Keeper: w.k}
 	w.setPairing("LAV1", 40, allowed, true)
